@@ -1,5 +1,6 @@
 import JsightVerif.Model.Project
 import JsightVerif.Proofs.BuildProps
+import JsightVerif.Proofs.ScanBan
 /-
   C19 — banned directives are always rejected.
   The ban is consulted where a directive is created from its keyword (core/scan_project.go
@@ -68,6 +69,28 @@ def isBanErr : Except PFault Core → Bool
   | _ => false
 example : isBanErr ((demoCore [.Get]).onLexeme ⟨.Keyword, 0, 2⟩) = true := by decide +kernel
 example : isBanErr ((demoCore [.Post]).onLexeme ⟨.Keyword, 0, 2⟩) = false := by decide +kernel
+
+/-! ### the whole scanning stage (Proofs/ScanBan.lean) -/
+
+/-- **C19 (every project)**: whatever the root file, the files reachable through INCLUDE, the include
+    graph and the fuel — if the scanning stage accepts the project, no directive of the forest it hands
+    to the build stage has a banned kind: not in the root file, not in an INCLUDEd file, not in the body
+    of a MACRO whether anything pastes it or not (every directive enters the tree through `attach`, after
+    having been created by `onLexeme`, which refuses banned kinds).  Contrapositive: a project in which a
+    directive of a banned kind is written anywhere is never accepted. -/
+theorem C19_scanned_forest_not_banned (fsys : FileSys) (n : Nat) (rootName : Bytes) (content : Array UInt8)
+    (lenAt : BodyKind → Nat → LenAnswer) (banned : List Kind) (c' : Core)
+    (h : Core.run fsys n { current := { name := rootName, env := mkEnv content lenAt, sc := Sc.init .stateRoot }, banned := banned } = .ok c') :
+    Tree.allList (Build.notBanned banned) c'.ctx.forest = true :=
+  scan_forest_not_banned fsys n rootName (mkEnv content lenAt) banned c' h
+
+/-- a banned INCLUDE stops the project at the first INCLUDE line: no file is ever switched to -/
+theorem C19_banned_include_never_entered (c c' : Core) (fsys : FileSys) (kw : Lexeme)
+    (hb : c.banned.contains .Include = true) : c.processInclude fsys kw ≠ .ok c' := by
+  obtain ⟨e, he, _⟩ := banned_include_refused c fsys kw hb
+  rw [he]
+  intro h
+  cases h
 
 /-! ### after MACRO/PASTE expansion (Model/Build.lean, tied by op `cat`) -/
 
